@@ -22,9 +22,10 @@ Definition cfg_f {X} (t d : option float) (n : option nat) (g : X) : ncfg float 
         (match d with Some x => x | None => NEWTON_DELTA end)
         (match n with Some x => x | None => NEWTON_MAX_ITER end) g.
 
-(* ---- canonical order of a multiset of call points: insertion sort, lexicographic on the
-        flattened form.  The property bounds the NUMBER of evaluations and says nothing about
-        their order inside one pass, so the comparison is on (count, multiset of points). ---- *)
+(* ---- canonical order of the call points of ONE pass of the loop: insertion sort, lexicographic
+        on the flattened form.  The property bounds the NUMBER of evaluations and says nothing
+        about their order inside one pass, so the passes are compared in order, each as a multiset
+        (a rewrite that evaluates func(current) before the two difference points stays quiet). ---- *)
 Fixpoint lexleb (a b : list Z) : bool :=
   match a, b with
   | [], _ => true
@@ -38,6 +39,15 @@ Fixpoint ins (x : list Z) (l : list (list Z)) : list (list Z) :=
   end.
 Definition sortz (l : list (list Z)) : list (list Z) := fold_right ins [] l.
 
+Fixpoint chunks_aux {X} (fuel k : nat) (l : list X) : list (list X) :=
+  match fuel with
+  | 0 => []
+  | S fu => match l with [] => [] | _ => firstn k l :: chunks_aux fu k (skipn k l) end
+  end.
+Definition chunks {X} (k : nat) (l : list X) : list (list X) := chunks_aux (length l) k l.
+Definition passes {E} (k : nat) (fe : E -> list Z) (evs : list E) : list Z :=
+  concat (map (fun ch => concat (sortz (map fe ch))) (chunks k evs)).
+
 Definition fl_nres {X} (fx : X -> list Z) (r : nres X) : list Z :=
   match r with NOk x => fl_nat 1 ++ fx x | NErr x => fl_nat 0 ++ fx x end.
 Definition fl_call {X} (fx : X -> list Z) (c : call X) : list Z :=
@@ -45,25 +55,28 @@ Definition fl_call {X} (fx : X -> list Z) (c : call X) : list Z :=
 Definition nfl_mat {A : Arith} (fe : A -> list Z) (m : matrix A) : list Z :=
   fl_nat (rows m) ++ fl_nat (cols m) ++ concat (map fe (buf m)).
 
-(* one observation of a solver:  parameters(), result, number of calls, multiset of call points,
-   parameters() again, result and count of a second call *)
-Definition run_newton {X E} (fx : X -> list Z) (fe : E -> list Z) (c : ncfg float X)
+(* one observation of a solver: parameters() (scalar kinds only: Newton<Vector<_>> has no
+   parameters(), Vector is not Copy), result, number of calls, the call points pass by pass
+   ([k] calls per pass, each pass sorted), parameters() again, result and count of a second
+   call on the same object *)
+Definition run_newton {X E} (withp : bool) (k : nat) (fx : X -> list Z) (fe : E -> list Z) (c : ncfg float X)
     (r : res (nres X * list E)) : list Z :=
   fl_res (fun r : nres X * list E =>
-    let p := flat_f (tol c) ++ flat_f (delta c) ++ fl_nat (max_iter c) ++ fx (guess c) in
+    let p := if withp then flat_f (tol c) ++ flat_f (delta c) ++ fl_nat (max_iter c) ++ fx (guess c)
+             else [] in
     let body := fl_nres fx (fst r) ++ fl_nat (length (snd r)) in
-    p ++ body ++ concat (sortz (map fe (snd r))) ++ p ++ body) r.
+    p ++ body ++ passes k fe (snd r) ++ p ++ body) r.
 
-Definition run_scalar_f c e := run_newton flat_f flat_f c (newton_scalar NF c (fn1 e)).
-Definition run_scalar_c c e := run_newton flat_cf flat_cf c (newton_scalar NC c (fn1 e)).
-Definition run_sys_f c es :=
-  run_newton (fl_list flat_f) (fl_list flat_f) c (newton_sys NF c (fnv es)).
-Definition run_sys_c c es :=
-  run_newton (fl_list flat_cf) (fl_list flat_cf) c (newton_sys NC c (fnv es)).
-Definition run_sysjac_f c es r k js :=
-  run_newton (fl_list flat_f) (fl_call (fl_list flat_f)) c (newton_sysjac NF c (fnv es) (fnm r k js)).
-Definition run_sysjac_c c es r k js :=
-  run_newton (fl_list flat_cf) (fl_call (fl_list flat_cf)) c (newton_sysjac NC c (fnv es) (fnm r k js)).
+Definition run_scalar_f c (e : expr AF) := run_newton true 3 flat_f flat_f c (newton_scalar NF c (fn1 e)).
+Definition run_scalar_c c (e : expr ACF) := run_newton true 3 flat_cf flat_cf c (newton_scalar NC c (fn1 e)).
+Definition run_sys_f c (es : list (expr AF)) :=
+  run_newton false (length (guess c) + 2) (fl_list flat_f) (fl_list flat_f) c (newton_sys NF c (fnv es)).
+Definition run_sys_c c (es : list (expr ACF)) :=
+  run_newton false (length (guess c) + 2) (fl_list flat_cf) (fl_list flat_cf) c (newton_sys NC c (fnv es)).
+Definition run_sysjac_f c (es : list (expr AF)) r k (js : list (expr AF)) :=
+  run_newton false 2 (fl_list flat_f) (fl_call (fl_list flat_f)) c (newton_sysjac NF c (fnv es) (fnm r k js)).
+Definition run_sysjac_c c (es : list (expr ACF)) r k (js : list (expr ACF)) :=
+  run_newton false 2 (fl_list flat_cf) (fl_call (fl_list flat_cf)) c (newton_sysjac NC c (fnv es) (fnm r k js)).
 
 (* Jacobian kinds: the matrix, the number of calls and the call points IN ORDER (C18 speaks
    about the sequence) *)
